@@ -296,14 +296,32 @@ func GenerateReDKGMessage(messages []storage.Message, newCommPubKeys map[string]
 				})
 			}
 		}
-		if fsm.Event(msg.Event) == signing_proposal_fsm.EventSigningStart {
-			break
+		// A reinitialisation replays the key generation. Messages of the signing phase are left
+		// out wherever they stand: a dump holds whatever was posted to the board, also a signing
+		// proposal that every node refused while the key generation was still under way, and
+		// stopping at the first one would cut the rest of the key generation off.
+		if IsSigningPhaseEvent(fsm.Event(msg.Event)) {
+			continue
 		}
 
 		reDKG.Messages = append(reDKG.Messages, msg)
 	}
 
 	return &reDKG, nil
+}
+
+// IsSigningPhaseEvent tells the messages that belong to signing (proposals, partial signatures,
+// failure reports, reconstruction broadcasts) from those of the key generation.
+func IsSigningPhaseEvent(event fsm.Event) bool {
+	switch event {
+	case signing_proposal_fsm.EventSigningStart,
+		signing_proposal_fsm.EventSigningPartialSignReceived,
+		signing_proposal_fsm.EventSigningPartialSignError,
+		SignatureReconstructed,
+		SignatureReconstructionFailed:
+		return true
+	}
+	return false
 }
 
 func CalcStartReInitDKGMessageHash(payload []byte) ([]byte, error) {
